@@ -125,7 +125,7 @@ class EngineBase(PathMgr):
         dct = self.strip_fresh(self.st.dct) if self.is_old(d) else self.st.dct
         darr = smt.simp(z3.Select(dct, r))
         v = smt.simp(z3.Select(darr, kk))
-        if self.merged_dicts:
+        if self.merged_dicts or self.base_facts:
             self.merged_member_fact(darr, kk)
         self.dict_probes.append((smt.simp(r), kk))
         self.link_dlen(smt.simp(r), kk)
